@@ -6,6 +6,7 @@ import (
 	"math/big"
 	"sort"
 
+	"github.com/idena-network/idena-go/blockchain/fee"
 	"github.com/idena-network/idena-go/blockchain/types"
 	"github.com/idena-network/idena-go/common"
 	"github.com/idena-network/idena-go/config"
@@ -599,6 +600,61 @@ func runC06(r *vfw.Run) {
 	}
 	var included []inc
 	replays := 0
+	// the proposer with a hostile mempool: its candidate list also offers already included transactions, transactions
+	// signed for the next or a past epoch, a second transaction with a used nonce and a nonce gap; the block itself is
+	// built by the node's own ProposeBlock code (VerifProposeBlockWithTxs is derived from it at build time)
+	lr.l.CandidateHook = func(p *simnode.Node, honest []*types.Transaction) []*types.Transaction {
+		if r.Choose("c06.hostilelist", 4) != 0 {
+			return nil
+		}
+		list := append([]*types.Transaction{}, honest...)
+		ep := p.App.State.Epoch()
+		actors := s.AllActors()
+		for k := 1 + r.Choose("c06.hl.n", 3); k > 0; k-- {
+			var tx *types.Transaction
+			what := r.Choose("c06.hl.what", 5)
+			switch {
+			case what == 0 && len(included) > 0:
+				tx = included[r.Choose("c06.hl.old", len(included))].tx
+			default:
+				id := actors[r.Choose("c06.hl.sender", len(actors))]
+				to := actors[r.Choose("c06.hl.to", len(actors))].Addr
+				nonce := uint32(1)
+				txep := ep
+				if p.App.State.GetEpoch(id.Addr) == ep {
+					nonce = p.App.State.GetNonce(id.Addr) + 1
+				}
+				for _, h := range list {
+					if snd, _ := types.Sender(h); snd == id.Addr && h.Epoch == ep && h.AccountNonce >= nonce {
+						nonce = h.AccountNonce + 1
+					}
+				}
+				switch what {
+				case 1:
+					txep, nonce = ep+1, 1 // signed for the next epoch
+				case 2:
+					if ep > 0 {
+						txep = ep - 1
+					}
+				case 3:
+					if nonce > 1 {
+						nonce-- // a second transaction with a nonce that is already used
+					}
+				case 4:
+					nonce += uint32(1 + r.Choose("c06.hl.gap", 3))
+				}
+				t := &types.Transaction{AccountNonce: nonce, Epoch: txep, Type: types.SendTx, To: &to, Amount: big.NewInt(int64(1 + r.Choose("c06.hl.amount", 1000)))}
+				t.MaxFee = new(big.Int).Mul(fee.CalculateFee(p.App.ValidatorsCache.NetworkSize(), scen.FeeRate(p), t), big.NewInt(3))
+				tx, _ = types.SignTx(t, id.Key)
+			}
+			if tx != nil {
+				pos := r.Choose("c06.hl.pos", len(list)+1)
+				list = append(list[:pos], append([]*types.Transaction{tx}, list[pos:]...)...)
+			}
+		}
+		r.Fault("proposer_with_hostile_candidate_list")
+		return list
+	}
 	checkChain := func(n *simnode.Node, upTo uint64) {
 		seen := map[common.Hash]uint64{}
 		last := map[string]uint32{}
